@@ -17,8 +17,11 @@ fn main() {
         "c05_manager_steps" => c05_manager_steps(&mut nd),
         "c05_dial_address" => c05_dial_address(&mut nd),
         "c16_put_to_targets" => c16_put_to_targets(&mut nd),
+        "c14_table_ops" => c14_table_ops(&mut nd),
+        "c14_bucket_full" => c14_bucket_full(&mut nd),
         "c20_block_cid" => c20_block_cid(&mut nd),
         "c20_batching" => c20_batching(&mut nd),
+        "c17_store_providers" => c17_store_providers(&mut nd),
         "c17_store_records" => c17_store_records(&mut nd),
         "c19_multistream_decode" => c19_multistream_decode(&mut nd),
         other => panic!("unknown harness {other}"),
